@@ -4,10 +4,12 @@ mod c02;
 mod c03;
 mod c04;
 mod c05;
+mod c06;
 mod c07;
 mod c09;
 mod c10;
 mod c11;
+mod c12;
 mod c17;
 mod c18;
 mod c19;
@@ -57,10 +59,12 @@ fn main() {
                 "C03" => c03::check(&tier),
                 "C04" => c04::check(&tier),
                 "C05" => c05::check(&tier),
+                "C06" => c06::check(&tier),
                 "C07" => c07::check(&tier),
                 "C09" => c09::check(&tier),
                 "C10" => c10::check(&tier),
                 "C11" => c11::check(&tier),
+                "C12" => c12::check(&tier),
                 "C17" => c17::check(&tier),
                 "C18" => c18::check(&tier),
                 "C19" => c19::check(&tier),
